@@ -37,6 +37,14 @@ def program_slices(tier):
                         tys2=("string", "opt_i32") if not q else ("string",))))
     sl.append(("S2", sc(["struct"], [], [[], ["rename"]], ["tuple", "newtype", "unit", "named0", "tuple0"], [], [],
                         ["i32", "string", "opt_i32", "inner", "vec_i32", "datae", "gen_i32", "tup", "unit", "map"], [[], ["skip"], ["inline"]])))
+    # generic programs P<T>, instantiated at i32 / Inner / Option<i32> (thorough: also Vec<Inner>, UnitE)
+    gargs = ["i32", "inner", "opt_i32"] if q else list(corpus.GEN_ARGS)
+    sl.append(("G1", sc(["struct"], [], [[], ["tag"], ["optional_fields"]] if q else [[], ["tag"], ["optional_fields"], ["rename_all"], ["rename"]],
+                        ["named", "newtype", "tuple"], [], [], [], [[], ["inline"], ["flatten"], ["optional"], ["optional_nullable"], ["optional_ssi"], ["skip"]],
+                        tys2=("string",), gen=corpus.gen_config(gargs, list(corpus.PTOKS)))))
+    sl.append(("G2", sc(["enum"], reprs, [[]], [], ["newtype", "struct1", "tuple"] if q else ["newtype", "struct1", "struct2", "tuple"],
+                        [[], ["untagged"]], [], [[], ["inline"]] if q else [[], ["inline"], ["flatten"], ["optional"]],
+                        tys2=("i32",), gen=corpus.gen_config(gargs if not q else ["i32", "opt_i32"], ["T", "opt_T", "vec_T", "gen_T"] if q else list(corpus.PTOKS)))))
     if not q:
         sl.append(("E4", sc(["enum"], reprs, [[], ["rename_all_fields"]], [], ["struct2", "newtype", "tuple"], [[], ["untagged"], ["rename_all"]],
                             ["opt_i32", "inner", "tage", "gen_i32"],
@@ -114,7 +122,7 @@ def adjudicate(records, env, tag):
 
 def prog_descriptor(prop, slice_name, prog):
     """flat description of a program for known-finding signatures"""
-    d = {"prop": prop, "slice": slice_name, "kind": prog["kind"], "cattrs": sorted(prog["cattrs"])}
+    d = {"prop": prop, "slice": slice_name, "kind": prog["kind"], "cattrs": sorted(prog["cattrs"]), "generic_arg": prog.get("garg", "")}
     if prog["kind"] == "struct":
         d["shape"] = prog["shape"]
         d["field_types"] = [f["ty"] for f in prog["fields"]]
